@@ -312,6 +312,42 @@ def _copy_copies(ctx):
     with ctx.only(".copy"):
         r2_operands_encoded(ctx)           # str_to_int overwrites signs on number_text.copy(): the copy must not share the caller's buffer
 
+def r9_digit_fast_path(ctx):
+    """The buffer extractor hands integer columns to the parser either as ragged text plus sign masks, or -- fast path -- as a fixed-width matrix of DIGITS with
+    no sign masks at all.  The fast path decodes every byte as a digit, so it is right only where no field starts with a sign character; the sign characters are
+    the ones str_to_int recognises (enumerated from its own code)."""
+    from ..cfg import CFG
+    from ..pend import edge_facts
+    ix = ctx.index
+    f = ix.func(S, "str_to_int")
+    signs = set()
+    for x in body_walk(f.node):
+        if isinstance(x, ast.Compare) and len(x.ops) == 1 and isinstance(x.ops[0], ast.Eq) and isinstance(x.comparators[0], ast.Constant) \
+                and isinstance(x.comparators[0].value, str) and len(x.comparators[0].value) == 1 and isinstance(x.left, ast.Subscript) and sym.canon(x.left.slice).replace(" ", "") in ("(:,0)", "(slice(None),0)", "(:, 0)"):
+            signs.add(x.comparators[0].value)
+    ctx.floor("sign characters recognised by str_to_int", len(signs), 2)
+    g = ix.func("bionumpy.io.file_buffers", "TextBufferExtractor.get_digit_array")
+    cfg = CFG(g.node)
+    env = local_env(g.node)
+    fld = g.params[1]
+    fast = []
+    for n in cfg.nodes:
+        if n.kind == "stmt" and isinstance(n.ast, ast.Return) and isinstance(n.ast.value, ast.Tuple) and len(n.ast.value.elts) == 3 \
+                and all(isinstance(e, ast.Constant) and e.value is None for e in n.ast.value.elts[1:]):
+            fast.append(n)
+    ctx.floor("get_digit_array: returns without sign masks (digit fast path)", len(fast), 1)
+    first = f"self._data[self._field_starts[:, {fld}]]"
+    for n in fast:
+        facts = set()
+        for t, lab in cfg.guards(n):
+            facts |= edge_facts(t, lab, env)
+        for c in sorted(signs):
+            want = [sym.canon(sym.parse_expr(f"np.any({first} == {c!r})")), sym.canon(sym.parse_expr(f"np.any({c!r} == {first})"))]
+            ok = any((not v) and any(w == k or f"({w})" == k for w in want) for k, v in facts)
+            ctx.ob(g.where, f"the digit fast path (no sign masks) is taken only where no field starts with {c!r}: every sign str_to_int recognises sends the column "
+                   "down the ragged path with its masks", ok, f"guards: {sorted(k for k, v in facts if not v)}", key=f"C18-R9|fast-path-excludes|{c}")
+
+
 RULES = [
     ("C18-R1", r1_formatting),
     ("C18-R2", r2_parsing),
@@ -323,4 +359,5 @@ RULES = [
     ("C18-T2", _small_edits),
     ("C18-R7", _delta_arrays),
     ("C18-R8", _copy_copies),
+    ("C18-R9", r9_digit_fast_path),
 ]
